@@ -683,3 +683,25 @@ Example ex_after : map (@List.length lrec) (snd (run ex_cfg false (OpInstall :: 
 Proof. reflexivity. Qed.
 Example ex_text : map (map l_text) (snd (run ex_cfg false [OpEvent ex_meta ex_vs])) = [[[104; 105; 32; 97; 61; 49]]].  (* "hi a=1" *)
 Proof. reflexivity. Qed.
+
+(** an event on the harness' own callsite (same name, target and field names as a log event) *)
+Definition ex_foreign : event :=
+  mkEvent log_event_name log_target Info "HARNESS_CS"
+          [(mkField "HARNESS_CS" 0, Some (VArgs [104])); (mkField "HARNESS_CS" 1, Some (VStr ex_target))].
+Example ex_foreign_hyp :
+  forall l, ev_cs ex_foreign <> (match assoc_lv l gen_level_to_cs with Some (cs, _) => cs | None => EmptyString end).
+Proof. intros []; discriminate. Qed.
+Example ex_foreign_not_log : is_log ex_foreign = Some false /\ normalize ex_foreign = Some None.
+Proof. split; reflexivity. Qed.
+
+Definition ex_cfg_always : lcfg := mkCfg true (Some Trace) (Some Trace) (fun _ _ => true).
+Example ex_always : accepting ex_cfg_always /\ c_always ex_cfg_always = true /\
+  map (@List.length lrec) (snd (run ex_cfg_always false (OpInstall :: ex_history))) = [0; 1; 1; 1; 1; 1]%nat.
+Proof. repeat split. Qed.
+Example ex_flag : fst (run ex_cfg false [OpEvent ex_meta ex_vs; OpInstall]) = true /\
+  fst (run ex_cfg false ([OpEvent ex_meta ex_vs; OpInstall] ++ [OpUninstall; OpEvent ex_meta ex_vs])) = true.
+Proof. split; reflexivity. Qed.
+(** a closed log-side gate: `log::max_level()` = Warn silences an INFO event, for every flag value *)
+Example ex_gate_closed : forall ex,
+  step_gates (mkCfg false (Some Trace) (Some Warn) (fun _ _ => true)) ex (OpEvent ex_meta ex_vs) = false.
+Proof. intros []; reflexivity. Qed.
